@@ -93,6 +93,8 @@ class StructureDetector:
         self.loop_headers = {loop.header: loop for loop in self.loops}
 
         self.marked = {self.cfg.exit_node}
+        # Stack of nodes that are reached by falling out of the shape
+        # which is currently under construction:
         self.follow_stack = [self.cfg.exit_node]
         top_loop = Loop(
             header=self.cfg.entry_node,
@@ -121,7 +123,12 @@ class StructureDetector:
             self.marked.add(follow_up)
 
             self.logger.debug("--> Loop: %s break to %s", entry, follow_up)
+            # Falling out of the loop body leaves the loop:
+            if follow_up:
+                self.follow_stack.append(follow_up)
             s1 = self.make_shape(entry)
+            if follow_up:
+                self.follow_stack.pop(-1)
             self.logger.debug("--> end loop")
 
             # Cleanup stacks:
@@ -151,9 +158,13 @@ class StructureDetector:
             yes, no = entry.yes, entry.no  # TODO: major hack for yes and no
             self.logger.debug("--> code %s", entry)
             self.logger.debug("--> if (based on) %s", entry)
+            if follow_up:
+                self.follow_stack.append(follow_up)
             yes_shape = self.test(yes)
             self.logger.debug("--> else")
             no_shape = self.test(no)
+            if follow_up:
+                self.follow_stack.pop(-1)
             self.logger.debug("--> end if %s", entry)
             shape = IfShape(entry, yes_shape, no_shape)
             if follow_up:  # follow_up in same_loop:
@@ -172,8 +183,18 @@ class StructureDetector:
                 return ContinueShape(0)
             elif node is self.loop_stack[-1][1]:
                 return BreakShape(0)
-            else:
+            elif node is self.cfg.exit_node:
+                # Return from the function, no jump required.
                 return None
+            elif node is self.follow_stack[-1]:
+                # Fall through to the follow up code.
+                return None
+            else:
+                # A jump to some other place, for example a continue or
+                # break of an outer loop. This cannot be expressed.
+                raise ValueError(
+                    f"Cannot structure the jump to {node}"
+                )
         else:
             return self.make_shape(node)
 
